@@ -39,6 +39,7 @@ RULE = (
     "batch vs sender, sender vs delayed-send thread, sender vs timer-driven transitions); extra law: when every thread is "
     "idle no accepted event is left sitting in the queue. Non-trivial = >=2 producers and >=1 send that landed while a macrostep was in "
     "flight (inside a slow action) or a raise during start(); distinct = distinct (machine, schedule)."
+    ' Also: Sustained variant: every handled external event raises one ordinary event whose handler raises nothing (no self-fed chain longer than 1): every external and every raised event must be dequeued exactly once.'
 )
 ASSUMPTIONS = [
     "the sync engine is explored at blocking calls (Event.wait / sleep / Thread.start / thread exit) and, in campaign "
